@@ -176,6 +176,10 @@ def run_check(prop, modname, tier="quick", seed=0, procs=None, level="proof", as
                 undecided.append((oid, "solver: " + str(ob.get("note"))))
             elif st == "failed":
                 rep = ob.get("replay")
+                if rep is None and ob.get("model") == {} and not ob.get("native"):
+                    # no symbolic input took part: the real code was run on concrete values and the contract failed
+                    ob["native"] = True
+                    rep = {"confirmed": True, "observed": "concrete (native) evaluation of the contract failed: %s" % (ob.get("note") or "")}
                 kf = _match_known(known, oid, ob)
                 if kf is not None:
                     known_hit.append((kf, oid))
